@@ -1,14 +1,26 @@
 #!/bin/bash
-# tools/try_seeded.sh <seeded-id> <Cxx> [more Cxx...]   -- apply seeded/<id>/patch.diff to /repo, run the checks, undo.
+# tools/try_seeded.sh <seeded-id> <Cxx> [more Cxx...]
+# Applies seeded/<id>/patch.diff and runs the checks against the changed tree, then undoes it.
+#   default      : a scratch worktree of /repo + STONE_REPO (safe while other work reads /repo)
+#   IN_REPO=1    : apply to /repo itself (git -C /repo apply), run, `git -C /repo checkout -- .`
 # Prints one line per check: "<id> <Cxx> exit=<n> <violation-or-summary>"
 set -u
 here="$(cd "$(dirname "${BASH_SOURCE[0]}")/.." && pwd)"
 id="$1"; shift
 patch="$here/seeded/$id/patch.diff"
 [ -f "$patch" ] || { echo "no $patch"; exit 2; }
-if ! git -C /repo diff --quiet; then echo "/repo has uncommitted changes; refusing"; exit 2; fi
-git -C /repo apply "$patch" || { echo "patch does not apply"; exit 2; }
-trap 'git -C /repo checkout -- . ; git -C /repo clean -fdq -- stone 2>/dev/null' EXIT
+if [ "${IN_REPO:-0}" = "1" ]; then
+  git -C /repo diff --quiet || { echo "/repo has uncommitted changes; refusing"; exit 2; }
+  git -C /repo apply "$patch" || { echo "patch does not apply"; exit 2; }
+  trap 'git -C /repo checkout -- .' EXIT
+  export STONE_REPO=/repo
+else
+  wt="/tmp/seedrun-$id-$$"
+  git -C /repo worktree add -q --detach "$wt" HEAD || exit 2
+  trap 'git -C /repo worktree remove --force "$wt" >/dev/null 2>&1' EXIT
+  git -C "$wt" apply "$patch" || { echo "patch does not apply"; exit 2; }
+  export STONE_REPO="$wt"
+fi
 for c in "$@"; do
   out=$("$here/check" "$c" --tier "${TIER:-quick}" 2>&1)
   code=$?
